@@ -67,7 +67,13 @@ def _func_total(ctx, fn: Func, depth: int = 1) -> Tuple[bool, Optional[ast.AST]]
 
 
 def _call_sites(fn: Func, tails: Sequence[str]) -> List[ast.Call]:
-    return [x for x in walk_no_defs(fn.node) if isinstance(x, ast.Call) and call_tail(x) in tails]
+    # also a local bound by name lookup: fn = getattr(obj, "<tail>", None) ... fn(...)
+    bound = set()
+    for x in walk_no_defs(fn.node):
+        if isinstance(x, ast.Assign) and len(x.targets) == 1 and isinstance(x.targets[0], ast.Name) and isinstance(x.value, ast.Call) and dotted(x.value.func) == "getattr" \
+                and len(x.value.args) >= 2 and const_str(x.value.args[1]) in tails:
+            bound.add(x.targets[0].id)
+    return [x for x in walk_no_defs(fn.node) if isinstance(x, ast.Call) and (call_tail(x) in tails or (isinstance(x.func, ast.Name) and x.func.id in bound))]
 
 
 COERCE_CALLS = {"str", "float", "int", "bool", "dict", "list", "tuple", "_round6", "_clamp", "round", "abs", "max", "min", "len", "sorted"}
@@ -144,11 +150,13 @@ def rule_sanit_fields(ctx) -> None:
     deref = _dereferenced_fields(ctx, ["clematis.engine.gel", "clematis.engine.stages.hybrid"])
     ctx.floor("C20.SANIT", "record fields dereferenced by gel / hybrid", len(deref), 2)
     n_rec = 0
+    edge_maps = {src(v) for r in walk_no_defs(w.node) if isinstance(r, ast.Return) and isinstance(r.value, ast.Dict) for k, v in zip(r.value.keys, r.value.values)
+                 if k is not None and const_str(k) == "edges" and isinstance(v, ast.Name)}
     for n in cfg.nodes:
         if n.kind != "stmt" or not isinstance(n.ast, ast.Assign):
             continue
         for t in n.ast.targets:
-            if isinstance(t, ast.Subscript) and isinstance(t.value, ast.Name) and t.value.id == "edges_out" and isinstance(n.ast.value, ast.Dict):
+            if isinstance(t, ast.Subscript) and isinstance(t.value, ast.Name) and t.value.id in edge_maps and isinstance(n.ast.value, ast.Dict):
                 n_rec += 1
                 for k, v in zip(n.ast.value.keys, n.ast.value.values):
                     f = const_str(k) if k is not None else None
